@@ -19,22 +19,60 @@ Definition unary_prop_node (g : ograph) (n : node) : ograph :=
              (if String.eqb (n_op n) "Cast" || String.eqb (n_op n) "CastLike" then o_dtype g
               else updf (o_dtype g) y (copy_ann (o_dtype g y) (o_dtype g x)))
              (updf (o_shape g) y (copy_ann (o_shape g y) (o_shape g x)))
-             (o_scalar g) (o_crank g) (o_const g)
+             (o_scalar g) (o_crank g) (o_const g) (o_bool g) (o_fc g)
     | _, _ => g
     end
   else g.
 Definition o_pass_unary (g : ograph) : ograph := fold_left unary_prop_node (o_nodes g) g.
 
 Lemma unary_prop_node_frame g n : o_nodes (unary_prop_node g n) = o_nodes g /\ o_outputs (unary_prop_node g n) = o_outputs g /\
-  o_scalar (unary_prop_node g n) = o_scalar g /\ o_crank (unary_prop_node g n) = o_crank g /\ o_const (unary_prop_node g n) = o_const g.
+  o_scalar (unary_prop_node g n) = o_scalar g /\ o_crank (unary_prop_node g n) = o_crank g /\ o_const (unary_prop_node g n) = o_const g /\
+  o_bool (unary_prop_node g n) = o_bool g /\ o_fc (unary_prop_node g n) = o_fc g.
 Proof.
   unfold unary_prop_node. destruct (str_in _ _); [|repeat split]. destruct (n_ins n); [repeat split|]. destruct (n_outs n); repeat split.
+Qed.
+
+(* propagate_elementwise_shapes_ir: for every default-domain node whose operator is in ELEMENTWISE_BINARY_OPS, in graph order,
+   _refresh_elementwise_output_shape(node) (NOT rewired: on giving up the old annotation is kept): when every operand has a
+   declared shape and their dims broadcast ([ReshapePairPass.broadcast_dims] = _broadcast_shape_dims), the first output is
+   declared to have the broadcast shape, and takes the declared dtype of the shape source (first operand that is not a
+   one-element constant, else the first operand) when that has one.
+   Domain restrictions of the model: no nested graph on such a node (schema) and no ABSENT input before a present one
+   (Clip(x, , max)): the encoding has no absent inputs. *)
+Definition elem_prop_node (g : ograph) (n : node) : ograph :=
+  if str_in (n_op n) ELEMENTWISE_BINARY_OPS then
+    match n_outs n, n_caps n with
+    | y :: _, [] =>
+        match shape_source (projP g) (n_ins n) with
+        | None => g
+        | Some src =>
+            match mapM (o_shape g) (n_ins n) with
+            | None => g
+            | Some cands =>
+                match broadcast_dims cands with
+                | None => g
+                | Some m => mkOG (o_nodes g) (o_outputs g) (updf (o_dtype g) y (copy_ann (o_dtype g y) (o_dtype g src)))
+                                 (updf (o_shape g) y (Some m)) (o_scalar g) (o_crank g) (o_const g) (o_bool g) (o_fc g)
+                end
+            end
+        end
+    | _, _ => g
+    end
+  else g.
+Definition o_pass_elem (g : ograph) : ograph := fold_left elem_prop_node (o_nodes g) g.
+
+Lemma elem_prop_node_frame g n : o_nodes (elem_prop_node g n) = o_nodes g /\ o_outputs (elem_prop_node g n) = o_outputs g /\
+  o_scalar (elem_prop_node g n) = o_scalar g /\ o_crank (elem_prop_node g n) = o_crank g /\ o_const (elem_prop_node g n) = o_const g /\
+  o_bool (elem_prop_node g n) = o_bool g /\ o_fc (elem_prop_node g n) = o_fc g.
+Proof.
+  unfold elem_prop_node. destruct (str_in _ _); [|repeat split]. destruct (n_outs n); [repeat split|]. destruct (n_caps n); [|repeat split].
+  destruct (shape_source _ _); [|repeat split]. destruct (mapM _ _); [|repeat split]. destruct (broadcast_dims _); repeat split.
 Qed.
 
 Example unary_prop_ex :
   let g := mkOG [mkNode "Relu" [] [1] [] [2]; mkNode "custom::Relu" [] [2] [] [3]; mkNode "Cast" [1] [2] [] [4]] [3; 4]
                 (fun x => if Nat.eqb x 1 then Some 1%Z else None) (fun x => if Nat.eqb x 1 then Some [DSym "B"; DInt 3] else None)
-                (fun _ => false) (fun _ => None) (fun _ => None) in
+                (fun _ => false) (fun _ => None) (fun _ => None) (fun _ => None) None in
   map (o_shape (o_pass_unary g)) [2; 3; 4] = [Some [DSym "B"; DInt 3]; None; Some [DSym "B"; DInt 3]] /\
   map (o_dtype (o_pass_unary g)) [2; 3; 4] = [Some 1%Z; None; None].
 Proof. vm_compute. split; reflexivity. Qed.
